@@ -7,6 +7,22 @@ HERE = os.path.dirname(os.path.abspath(__file__))
 
 CLAIMED = {
     # id: (technique, level text, level note, design ref)
+    "C06": ("set-algebra entailment over the merge function (symbolic facts from guards on every CFG path) + def-use guard dependencies + delegation parameter coverage (ast)",
+            "Decides the structural conditions under which the builder's simplifications preserve meaning: the extend-merge "
+            "guard entails used(ops2) ∩ keys(ops1) = ∅ on every merged return path and ops2 is the last writer; the merged node "
+            "is built only under equal window specs; every trivial-intermediate delegation forwards every builder parameter; "
+            "collapse shortcuts validate first; only an un-limited order_rows is removable.",
+            "Trusted: one extend evaluates all expressions on the incoming table (simultaneous assignment). "
+            "Not decided: value-level equality of chained vs stepwise evaluation.",
+            "DESIGN.md 6/C06"),
+    "C10": ("abstract interpretation of columns_used_from_sources into set-algebra terms, evaluated on witness valuations per column-bearing field; def-use rule for SQL pruning (ast)",
+            "For each of the 13 node kinds every symbolic return path of columns_used_from_sources, evaluated over witness "
+            "tokens, contains every column an evaluator reads (window/group/join keys, decision columns, rename pre-images, "
+            "op arguments, requested pass-through columns) positively and unconditionally; the DAG walk accumulates and "
+            "recurses into every source; every SQL generator step prunes with the node's own report.",
+            "Trusted: the witness tables (their completeness is checked against the constructors' column validations). "
+            "Not decided: perturbation invariance of results on data.",
+            "DESIGN.md 6/C10"),
     "C07": ("sibling-field coverage matrix + def-use slot binding + whole-package call-signature binding (ast)",
             "Decides structural necessary conditions of composition: replace_leaves of all 13 node kinds forwards every "
             "semantic field into the builder parameter that feeds it; every certainly-resolved call in the package binds "
